@@ -47,7 +47,7 @@ Stutter == UNCHANGED vars
 
 TStutter ==
   /\ Step /\ Stutter
-  /\ \/ Is("start") \/ Is("vend") \/ IsTx("release") \/ IsTx("update_one") \/ Is("rows")
+  /\ \/ Is("start") \/ Is("vend") \/ Is("commit") \/ Is("respbody") \/ Is("dbsync") \/ IsTx("release") \/ IsTx("update_one") \/ Is("rows")
      \/ (IsTx("check_out") /\ ~Cur.found)
      \/ (Is("req") /\ Cur.kind = "robots")
      \/ (Is("resp") /\ Cur.cls \in {"robots200", "robots404", "robots500", "robots30x"})
